@@ -83,6 +83,50 @@ theorem sublist_of_WsSub (k o : Bytes) (h : WsSub k o) : o.Sublist k := by
   | keep x _ ih => exact ih.cons_cons x
   | skip x _ _ ih => exact ih.cons x
 
+/-- `c02_c03` as a relation: the output is the source without the ready extents, with some whitespace bytes left out
+    and nothing else changed -/
+theorem clean_wsSub (src ds de : List Char) (cfg : Cfg) (out : List Char) (hde : de ≠ [])
+    (h : clean src ds de cfg = .ok out) :
+    WsSub (minusRanges (bytesOf src) (extentsOfSource src ds de cfg)) (bytesOf out) := by
+  unfold clean at h
+  simp only [bind, Except.bind, pure, Except.pure] at h
+  cases hrm : removeMarkers (bytesOf src) (buildRemoveMarker cfg (bytesOf src) (parseSource src ds de)) with
+  | error e => rw [hrm] at h; simp at h
+  | ok removed =>
+    rw [hrm] at h
+    simp only at h
+    cases hpos : getRemovedPos (buildRemoveMarker cfg (bytesOf src) (parseSource src ds de)) with
+    | error e => rw [hpos] at h; simp at h
+    | ok pos =>
+      rw [hpos] at h
+      simp only at h
+      cases hf : format removed pos with
+      | error e => rw [hf] at h; simp at h
+      | ok o =>
+        rw [hf] at h
+        simp only at h
+        injection h with h
+        subst h
+        have hremoved := removed_eq src ds de cfg hde removed hrm
+        obtain ⟨s1, hs1⟩ := deleteAll_wellFormed src _ removed hrm
+        rw [hs1] at hf
+        obtain ⟨hws, s2, hs2⟩ := format_wsSub s1 pos o hf
+        rw [← hremoved, hs1, hs2, charsOf_bytesOf, ← hs2]
+        exact hws
+
+/-- C03, about `clean` itself: the non-whitespace bytes of the output are those of the source minus the ready extents -/
+theorem clean_nonws (src ds de : List Char) (cfg : Cfg) (out : List Char) (hde : de ≠ [])
+    (h : clean src ds de cfg = .ok out) :
+    (minusRanges (bytesOf src) (extentsOfSource src ds de cfg)).filter (fun x => !isWs x) =
+      (bytesOf out).filter (fun x => !isWs x) :=
+  nonws_eq _ _ (clean_wsSub src ds de cfg out hde h)
+
+/-- C02, about `clean` itself: the output is a subsequence of the source minus the ready extents -/
+theorem clean_sublist (src ds de : List Char) (cfg : Cfg) (out : List Char) (hde : de ≠ [])
+    (h : clean src ds de cfg = .ok out) :
+    (bytesOf out).Sublist (minusRanges (bytesOf src) (extentsOfSource src ds de cfg)) :=
+  sublist_of_WsSub _ _ (clean_wsSub src ds de cfg out hde h)
+
 /-! Non-vacuity: a document with a ready element nested in a pending one, and an unwrap-block. -/
 def exCfg : Cfg := ⟨"tl".toList, "rm".toList, 1577836800, 0, "+00:00".toList, ["a".toList]⟩
 def exSrc : List Char :=
